@@ -17,7 +17,7 @@ RULE = (
     "bounded-exhaustive grid (n_in, n_out) in [1..N]^2 x max_branch in {2,3,4,8,32} (N=10 quick, 20 thorough) x method {tasks,disk} "
     "x key kind {int,float+NaN,str+None,categorical,two columns,index,aligned series} x ignore_index; 3*n_in rows with a unique rid; "
     "invariants: permutation (rid multiset + row values), co-location (each distinct key incl. null in one partition), "
-    "same key -> same partition number for a second frame with another layout, and (merge cases) for int vs float keys in the two shuffles a hash join plans; "
+    "same key -> same partition number for a second frame with another layout, and (merge cases) for int vs float keys in the two shuffles a hash join plans, with the key a column, the named index (referenced by name) or left_index on either side; "
     "reported npartitions == n_out == computed partitions; requested subset == those partitions of the full shuffle; "
     "non-trivial = multi-stage route (ceil(log(n_in)/log(max_branch))>=2) or n_in != n_out; distinct by (n_in,n_out,max_branch,method,key)"
 )
@@ -59,6 +59,9 @@ def systematic(tier):
         for nr in range(1, M + 1):
             for method in ("tasks", "disk"):
                 cases.append({"merge": True, "n_left": nl, "n_right": nr, "method": method, "npartitions": [None, 3, 7][(nl + nr) % 3]})
+                # key placement: the (int) key is the named index of one side, referenced by name or as left_index/right_index
+                pl = ["indexname-col", "col-indexname", "leftindex-col", "indexname-indexname"][(nl * 7 + nr) % 4]
+                cases.append({"merge": True, "n_left": nl, "n_right": nr, "method": method, "npartitions": [None, 3, 7][(nl + nr + 1) % 3], "placement": pl})
     return cases
 
 
@@ -227,18 +230,26 @@ def check_merge(case):
     L = table(nl)[["ki", "rid"]].rename(columns={"rid": "lrid"})
     R = table(nr, salt=2)[["ki", "rid"]].rename(columns={"rid": "rrid"})
     R["ki"] = R["ki"].astype("float64")
+    pl = case.get("placement", "col-col")
+    mkw = {"on": "ki"}
+    if pl.startswith("indexname") or pl.startswith("leftindex"):
+        L = L.set_index("ki")  # int index, not sorted: unknown divisions
+    if pl.endswith("indexname"):
+        R = R.set_index("ki")  # float index
+    if pl == "leftindex-col":
+        mkw = {"left_index": True, "right_on": "ki"}
     dl = dx.from_pandas(L, npartitions=nl, sort=False)
     dr = dx.from_pandas(R, npartitions=nr, sort=False)
     kw = {}
     if case.get("npartitions"):
         kw["npartitions"] = case["npartitions"]
-    m = dl.merge(dr, on="ki", how="inner", shuffle_method=case["method"], broadcast=False, **kw)
+    m = dl.merge(dr, how="inner", shuffle_method=case["method"], broadcast=False, **mkw, **kw)
     try:
         opt = m.optimize(fuse=False)
         res, parts, cache, _, low = plans.execute(opt.expr)
     except Exception as e:
         return {"failures": [Failure("merge-raises", f"{type(e).__name__}: {e}", exc=e).record()], "nontrivial": False}
-    exp = L.merge(R.astype({"ki": "float64"}), on="ki", how="inner")
+    exp = L.merge(R, how="inner", **mkw)
     got = sorted(zip(res["lrid"].tolist(), res["rrid"].tolist()))
     want = sorted(zip(exp["lrid"].tolist(), exp["rrid"].tolist()))
     if got != want:
@@ -260,7 +271,7 @@ def check_merge(case):
                 p = cache.get((nm, i))
                 if p is None:
                     continue
-                for k in p["ki"].tolist():
+                for k in (p["ki"] if "ki" in p.columns else p.index).tolist():
                     mp.setdefault(float(k), set()).add(i)
             maps.append(mp)
         observed = 1
@@ -270,8 +281,8 @@ def check_merge(case):
                 break
     return {
         "failures": failures,
-        "nontrivial": [f"merge,{nl},{nr},{case['method']},{case.get('npartitions')}"] if observed and nl != nr else False,
-        "classes": ["merge-consistency", f"method:{case['method']}", "shuffles_observed" if observed else "shuffles_not_observed"],
+        "nontrivial": [f"merge,{nl},{nr},{case['method']},{case.get('npartitions')},{pl}"] if observed and nl != nr else False,
+        "classes": ["merge-consistency", f"method:{case['method']}", f"placement:{pl}", "shuffles_observed" if observed else "shuffles_not_observed"],
         "sample": case,
         "evaluations": 1,
     }
